@@ -21,7 +21,7 @@ ASSUMPTIONS = ['mutation of user dictionaries is logged as advisory unless it ch
 MIN_NONVACUOUS = {'quick': {'purity.same_problem_as_fresh': 250, 'purity.probe_does_not_raise': 250},
                   'thorough': {'purity.same_problem_as_fresh': 2000}}
 OPS = ['setup_other', 'setup_other', 'costs_only', 'set_timegrid_none', 'optimize_extract', 'to_json', 'split', 'second_portfolio', 'structured_reuse',
-       'asset_alone', 'failing_call', 'same_grid_other_prices', 'setup_other_tz', 'injected_failure', 'injected_failure']
+       'asset_alone', 'failing_call', 'same_grid_other_prices', 'setup_other_tz', 'injected_failure', 'injected_failure', 'change_parameter', 'change_parameter']
 _FP = {}
 
 
@@ -137,7 +137,7 @@ def run_case(rng, tier, case):
                 elif op == 'structured_reuse':
                     sub = [a for a in P.assets if type(a).__name__ in ('SimpleContract', 'Contract', 'Storage', 'Transport')][:3]
                     if sub:
-                        s_, e_, _k = gen.gen_window(rng, g2, kinds=['inside', 'inside', 'straddle_start', 'straddle_end'])
+                        s_, e_, _k = gen.gen_window(rng, g2, kinds=['inside', 'inside', 'straddle_start', 'straddle_end', 'start_only', 'end_only', 'start_only', 'end_only'])
                         sa = StructuredAsset(name='wrap', portfolio=Portfolio(sub), nodes=[sub[0].nodes[0]],
                                              start=None if s_ is None else pd.Timestamp(s_).to_pydatetime(), end=None if e_ is None else pd.Timestamp(e_).to_pydatetime())
                         sa.setup_optim_problem(pr2, tg2)
@@ -174,6 +174,25 @@ def run_case(rng, tier, case):
                             where = fp.inject(target, int(rng.integers(1, n_lines)))
                             outcome = 'injected fault at ' + str(where)
                             case.event('injected_faults')
+                elif op == 'change_parameter':
+                    # the user changes a parameter on the asset object between two set-ups (the spec is changed alike, so that the freshly built
+                    # objects of the final comparison carry the new value): a later set-up must reflect the new value, not anything remembered
+                    cands = [(a, x) for a, x in zip(P.assets, spec['assets']) if type(a).__name__ in ('Transport', 'ExtendedTransport', 'MultiCommodityContract', 'Storage', 'SimpleContract', 'Contract')]
+                    if cands:
+                        a, x = cands[int(rng.integers(len(cands)))]
+                        tn = type(a).__name__
+                        P.setup_optim_problem(b.prices, b.timegrid)       # a set-up with the old value first
+                        if tn in ('Transport', 'ExtendedTransport'):
+                            a.efficiency = x['efficiency'] = gen.pick(rng, [v for v in (1., 0.9, 0.8, 0.5) if v != x.get('efficiency')])
+                        elif tn == 'MultiCommodityContract':
+                            fc = [1.] + [gen.pick(rng, [0.3, 1.2, -0.7, 2.5]) for _ in a.nodes[1:]]
+                            a.factors_commodities = list(fc); x['factors_commodities'] = list(fc)
+                        elif tn == 'Storage':
+                            a.eff_in = x['eff_in'] = gen.pick(rng, [v for v in (0.95, 0.85, 0.7) if v != x.get('eff_in')])
+                        elif isinstance(x.get('max_cap'), (int, float)):
+                            nv = float(x['max_cap']) + gen.pick(rng, [1., 2.5])
+                            a.max_cap = x['max_cap'] = nv
+                        outcome = 'changed a parameter of ' + tn
                 elif op == 'failing_call':
                     bad = dict(pr2); bad.pop(keys[0], None)
                     try:
